@@ -114,8 +114,28 @@ def shard(args):
         sel_index = 0
         npert = 0
         newmsg = None               # id of a message loaded after polling started and the ids it still has to let through
+        recent = []                 # the last selections (sliding window)
+        late_added = set()          # messages loaded after polling had started (they begin at poll order 0: known finding)
+
+        def monopolising():
+            # a late-added message still catching up: it takes clearly more than its share of the recent selections
+            if len(recent) < 12 or len(cur) < 2:
+                return False
+            tot = sum(Fraction(1, p) for p in cur.values())
+            for k in late_added:
+                if k in cur and recent.count(k) / float(len(recent)) > float(Fraction(1, cur[k]) / tot) + 0.2:
+                    return True
+            return False
         stale = h > 0               # g_lastPollOrder (process global) is ahead of the messages of this map: after a reload / an earlier history
         fpstale = set()             # messages that got their first priority in that situation and were not selected since
+        fp_all = set()              # ... and all of them since the last reload: a front-of-queue insertion gives such a message one selection,
+                                    # its poll order stays far ahead until the others have caught up (known finding)
+
+        def lagging(j):
+            if j not in fp_all or j not in cur or len(recent) < 12 or len(cur) < 2:
+                return False
+            tot = sum(Fraction(1, p) for p in cur.values())
+            return recent.count(j) / float(len(recent)) < 0.5 * float(Fraction(1, cur[j]) / tot)
         distinct_p = len(set(prios.values())) >= 2
 
         def settle():
@@ -167,20 +187,33 @@ def shard(args):
                         gap = sel_index - lastj - (1 if j == i else 0)
                         slack = N + 18 if since_pert < settle() else 0
                         if gap > bound + slack and not j == i:
-                            viol.append(('starvation' + (':first-priority-after-reload' if j in fpstale else ':after-new-message' if newmsg else ''), 'history seed=%d #%d: message p%d (priority %d among %s) not selected for %d selections '
+                            viol.append(('starvation' + (':first-priority-after-reload' if (j in fpstale or lagging(j)) else ':after-new-message' if (newmsg or monopolising()) else ''), 'history seed=%d #%d: message p%d (priority %d among %s) not selected for %d selections '
                                          '(bound %d%s), %d selections after the last perturbation' % (
                                              seed, h, j, pj, sorted(cur.values()), gap, bound, '+%d settling' % slack if slack else '', since_pert)))
                             last_sel[j] = sel_index   # report once
                     last_sel[i] = sel_index
-                    if fpstale:
+                    if fpstale or (fp_all and any(lagging(k) for k in fp_all)):
                         win_fp = True     # the shares of everybody are distorted while such a message waits
                     fpstale.discard(i)
+                    recent.append(i)
+                    if len(recent) > max(24, 4 * len(cur)):
+                        recent.pop(0)
+                    if late_added and monopolising():
+                        win_new = True
                     if newmsg:
-                        # the monopoly of a late-added message is over once every other message was selected again after it
+                        # the monopoly of a late-added message (known finding) is over once every other message was selected again after it
+                        # AND it no longer takes clearly more than its share of the recent selections (it may let the others through once
+                        # and go on catching up)
                         if i != newmsg[0]:
                             newmsg[1].discard(i)
                         newmsg[1] &= set(cur)
-                        if not newmsg[1]:
+                        over = not newmsg[1]
+                        if over and newmsg[0] in cur and len(cur) > 1:
+                            fair = float(Fraction(1, cur[newmsg[0]]) / sum(Fraction(1, p) for p in cur.values()))
+                            took = recent.count(newmsg[0]) / float(len(recent))
+                            if took > fair + 0.2 or len(recent) < 12:
+                                over = False
+                        if over:
                             newmsg = None
                         else:
                             win_new = True
@@ -200,9 +233,12 @@ def shard(args):
                 if o[1] == '0':
                     cur[pl[1]] = 5
                     last_sel[pl[1]] = sel_index
+                    if newmsg:
+                        newmsg[1].add(pl[1])     # joins while a late-added message still monopolises polling: has to be let through as well
                     stats['condition_priorities'] = stats.get('condition_priorities', 0) + 1
                     if stale:
                         fpstale.add(pl[1])
+                        fp_all.add(pl[1])
                 else:
                     viol.append(('condition-not-resolved', 'history seed=%d #%d: resolveConditions -> %s' % (seed, h, o)))
             elif pl[0] == 'firstprio':
@@ -210,9 +246,12 @@ def shard(args):
                 if len(o) > 2 and o[1] == '1' and o[2].isdigit() and int(o[2]) > 0:
                     cur[pl[1]] = int(o[2])
                     last_sel[pl[1]] = sel_index
+                    if newmsg:
+                        newmsg[1].add(pl[1])
                     stats['first_priorities'] = stats.get('first_priorities', 0) + 1
                     if stale:
                         fpstale.add(pl[1])
+                        fp_all.add(pl[1])
                         stats['first_priorities_after_reload'] = stats.get('first_priorities_after_reload', 0) + 1
                 else:
                     viol.append(('first-priority-not-set', 'history seed=%d #%d: SETPRIO on unpolled p%d answered %s' % (seed, h, pl[1], o)))
@@ -222,6 +261,8 @@ def shard(args):
                     last_sel[pl[1]] = sel_index     # must be served within its bound from now on
                     if sel_index > 0:
                         newmsg = [pl[1], set(cur) - {pl[1]}]
+                        recent = []
+                        late_added.add(pl[1])
                         win_new = True
             elif pl[0] == 'remove':
                 cur.pop(pl[1], None)
@@ -232,6 +273,8 @@ def shard(args):
                 cur = {k: v for k, v in pl[1].items() if k in cur}
                 last_sel = {k: sel_index for k in cur}
                 newmsg = None
+                late_added = set()
+                fp_all = set()
                 stale = True
         close_window()
         stats['perturbations'] += npert
